@@ -170,6 +170,8 @@ class Evaluator(object):
     def ev_Name(self, node, path):
         if node.id in path.env:
             return path.env[node.id]
+        if node.id == "Ellipsis":
+            return form.apply("str:Ellipsis", [])          # the same value as the literal `...`
         return Rat.sym(node.id)
 
     def ev_Attribute(self, node, path):
@@ -185,6 +187,11 @@ class Evaluator(object):
             if r == "numpy.pi":
                 return Rat.sym("pi")
             head = d.split(".")[0]
+            if head == self.selfname and d.count(".") == 1 and node.attr.startswith("_") and self.cls is not None and PROGRAM is not None:
+                # a private class-level integer constant that nothing in the program ever assigns to an instance (`_max_dims = 5`)
+                cv = _class_int_constant(PROGRAM, self.cls, node.attr)
+                if cv is not None:
+                    return Rat.const(cv)
             if head not in path.env or (isinstance(path.env[head], Rat) and path.env[head].key() == "$" + head):
                 return Rat.sym(d)
         base = self.ev(node.value, path)
@@ -204,6 +211,12 @@ class Evaluator(object):
         if not isinstance(a, Rat) or not isinstance(b, Rat):
             if isinstance(node.op, ast.Add) and isinstance(a, (list, tuple)) and isinstance(b, (list, tuple)):
                 return list(a) + list(b)
+            if isinstance(node.op, ast.Mult):
+                # (x,) * 3 with a known small count
+                seq, cnt = (a, b) if isinstance(a, (list, tuple)) else (b, a)
+                n_ = cnt.const_value() if isinstance(cnt, Rat) else None
+                if isinstance(seq, (list, tuple)) and n_ is not None and n_ == int(n_) and 0 <= int(n_) <= 8:
+                    return list(seq) * int(n_)
             return self._opaque(node, path)
         op = node.op
         try:
@@ -415,7 +428,11 @@ class Evaluator(object):
         for a in args:
             flat.append(tuple(a) if isinstance(a, list) else a)
         if isinstance(node.func, ast.Name) and isinstance(path.env.get(node.func.id), Rat) and path.env[node.func.id].key() != "$" + node.func.id:
-            return form.apply("callobj", [path.env[node.func.id]] + flat, kwargs)
+            fv0 = path.env[node.func.id]
+            seen_through = self._call_method_value(fv0, node, args, kwargs, path)
+            if seen_through is not None:
+                return seen_through
+            return form.apply("callobj", [fv0] + flat, kwargs)
         if rname is None:
             # the callee is not a plain dotted name (a subscripted / computed callable, a method of a local object): an
             # uninterpreted application of the callee's VALUE, so that the names of local variables do not matter
@@ -433,6 +450,26 @@ class Evaluator(object):
                 if isinstance(fv, Rat):
                     return form.apply("callobj", [fv] + flat, kwargs)
         return form.apply("call:" + (rname or norm(node.func)), flat, kwargs)
+
+    def _call_method_value(self, fv, node, args, kwargs, path, depth=0):
+        """compute = self._a if c else self._b ; compute(x): the callee is a (conditional) bound method of self that
+        tables/known_methods.json does not list - evaluated in place per alternative.  None when it is anything else."""
+        if not isinstance(fv, Rat) or depth > 3:
+            return None
+        at = fv.as_atom()
+        if at is None:
+            return None
+        if at.func == "ifexp" and len(at.args) == 3 and all(isinstance(x, Rat) for x in at.args):
+            a = self._call_method_value(at.args[1], node, args, kwargs, path, depth + 1)
+            b = self._call_method_value(at.args[2], node, args, kwargs, path, depth + 1) if a is not None else None
+            if isinstance(a, Rat) and isinstance(b, Rat):
+                return form.apply("ifexp", [at.args[0], a, b])
+            return None
+        if at.func.startswith("$" + self.selfname + ".") and not at.args and at.func.count(".") == 1:
+            fn2 = at.func[1:]
+            r = self._inline_unknown(node, fn2, None, args, kwargs, path)
+            return r if isinstance(r, Rat) else None
+        return None
 
     def _inline_unknown(self, node, fn, rname, args, kwargs, path):
         """A call to a helper of verif/scripts that tables/known_methods.json does not list (introduced after the rules were
@@ -452,12 +489,24 @@ class Evaluator(object):
                 fdef, callee_module = cand, self.module
                 closure = dict(path.env)          # a closure reads the enclosing variables as they are at the time of the call
                 owner = self.cls
+        callee_self_is_fresh = False
         if fdef is not None:
             pass
         elif parts[0] == self.selfname and len(parts) == 2 and self.cls is not None:
             hit = prog.lookup_method(self.cls, parts[1])
             if hit is not None and parts[1] not in known["classes"].get(hit[0].qual, [parts[1]]):
                 owner, fdef, bound = hit[0], hit[1], True
+            elif hit is None:
+                # self._helper(...) with `_helper = SomeClass()` a class-level instance of a class of the program: its __call__
+                av = prog.lookup_attr(self.cls, parts[1])
+                if av is not None and isinstance(av[1], ast.Call) and not av[1].args and not av[1].keywords:
+                    cq = av[0].module.resolve(dotted(av[1].func) or "") if dotted(av[1].func) else None
+                    c2 = prog.cls(cq, required=False) if cq else None
+                    if c2 is None and dotted(av[1].func) in av[0].module.classes:
+                        c2 = av[0].module.classes[dotted(av[1].func)]
+                    h2 = prog.lookup_method(c2, "__call__") if c2 is not None else None
+                    if h2 is not None and prog.lookup_method(c2, "__init__") is None:
+                        owner, fdef, bound, callee_self_is_fresh = h2[0], h2[1], True, True
         if fdef is None and len(parts) >= 2:
             cq = self.module.resolve(".".join(parts[:-1]))
             c = prog.cls(cq, required=False) if cq else None
@@ -487,6 +536,8 @@ class Evaluator(object):
         if params and params[0] in ("self", "cls") and "staticmethod" not in decos:
             params = params[1:]
         env = {k: v for k, v in path.env.items() if k.startswith(self.selfname + ".")} if closure is None else closure
+        if callee_self_is_fresh:
+            env = {}            # the callee's self is another object (a stateless helper instance), not the caller's
         for p_, a in zip(params, args):
             env[p_] = a
         for k, v in kwargs.items():
@@ -518,9 +569,10 @@ class Evaluator(object):
         # (and the call is then fully represented by its inlined events and value)
         exits = [getattr(o, "env", None) for o in outs] + [p_.env for p_ in live]
         if len(exits) == 1 and exits[0] is not None and not errs and not any(o.kind == "raise" for o in sub.outcomes):
-            for k, v in exits[0].items():
-                if k.startswith(self.selfname + "."):
-                    path.env[k] = v
+            if not callee_self_is_fresh:
+                for k, v in exits[0].items():
+                    if k.startswith(self.selfname + "."):
+                        path.env[k] = v
             self._inlined_fully = True
         if not outs:
             return Rat.sym("None")
@@ -831,8 +883,30 @@ class Evaluator(object):
                     if it_.optional_vars is not None and isinstance(cv, Rat):
                         self.assign(it_.optional_vars, cv, path, st)
             return self.exec_block(st.body, [path])
+        if isinstance(st, ast.For) and not st.orelse and isinstance(st.target, ast.Name) and self.loop_mode not in ("body_once", "unroll2"):
+            # a loop over range(<small constant>) is run concretely whatever the loop mode
+            it0 = self.ev(st.iter, path)
+            cr = _const_range(it0)
+            if cr is not None:
+                live, done = [path], []
+                for x in cr:
+                    nxt = []
+                    for p in live:
+                        self.assign(st.target, Rat.const(x), p, st)
+                        for q_ in self.exec_block(st.body, [p]):
+                            if q_.ctrl == "break":
+                                q_.ctrl = None
+                                done.append(q_)
+                            else:
+                                q_.ctrl = None
+                                nxt.append(q_)
+                    live = nxt
+                return live + done
         if isinstance(st, ast.For) and self.loop_mode in ("body_once", "unroll2"):
             it = self.ev(st.iter, path)
+            cr = _const_range(it) if isinstance(st.target, ast.Name) else None
+            if cr is not None:
+                it = [Rat.const(x) for x in cr]
             rows = isinstance(it, list) and it and len(it) <= 8 and isinstance(st.target, ast.Tuple) and not st.orelse \
                 and all(isinstance(e_, ast.Name) for e_ in st.target.elts) \
                 and all(isinstance(x, list) and len(x) == len(st.target.elts) and all(isinstance(y, Rat) for y in x) for x in it)
@@ -1021,6 +1095,43 @@ class Evaluator(object):
             o.env = p.env
             self.outcomes.append(o)
         return self.outcomes
+
+
+_ATTR_STORES = {}
+
+
+def _class_int_constant(prog, cls, name):
+    key = id(prog)
+    if key not in _ATTR_STORES:
+        stored = set()
+        for m_ in prog.modules.values():
+            for n_ in ast.walk(m_.tree):
+                if isinstance(n_, ast.Attribute) and isinstance(n_.ctx, (ast.Store, ast.Del)):
+                    stored.add(n_.attr)
+                elif isinstance(n_, ast.Call) and dotted(n_.func) == "setattr":
+                    stored.add("*")
+        _ATTR_STORES.clear()
+        _ATTR_STORES[key] = stored
+    stored = _ATTR_STORES[key]
+    if name in stored or "*" in stored:
+        return None
+    try:
+        v = prog.attr_const(cls, name, None)
+    except Exception:
+        return None
+    return v if isinstance(v, int) and not isinstance(v, bool) else None
+
+
+def _const_range(it):
+    """range(c) / range(a, b) with small constant bounds -> the python list of its values (at most 8), else None"""
+    at = it.as_atom("call:range") if isinstance(it, Rat) else None
+    if at is None or not (1 <= len(at.args) <= 2) or not all(isinstance(a, Rat) and a.const_value() is not None for a in at.args):
+        return None
+    vals = [a.const_value() for a in at.args]
+    if any(v != int(v) for v in vals):
+        return None
+    r = list(range(*[int(v) for v in vals]))
+    return r if 0 < len(r) <= 8 else None
 
 
 def _norm_index_value(v):
